@@ -163,6 +163,10 @@ def gen_content(rng, rich, tag):
             lines.append("")                        # trailing empty lines
         if rng.random() < 0.15:
             lines.insert(0, "")                     # leading empty line
+        if lines and rng.random() < 0.06:
+            # a content that BEGINS with U+FEFF (a byte order mark when it is the first thing in a file, an ordinary
+            # zero-width character of the first line everywhere else): what a codec with BOM handling treats specially
+            lines[0] = "\ufeff" + (lines[0] if rng.random() < 0.8 else "")
     if not rich:
         lines = ["%s line %d" % (tag, k) for k in range(n)]
     return lines
